@@ -362,7 +362,14 @@ impl<'a> Sim<'a> {
                     while c2.contains_key(&k) {
                         k.push('z');
                     }
-                    c2.insert(k, J::s("x"));
+                    // sometimes inflated beyond the PDU size limit: the signatures still cover the
+                    // (small) redacted form, the event as a whole must be refused
+                    if self.t.chance(1, 5) {
+                        c2.insert(k, J::Str("i".repeat(66_000)));
+                        self.bump("fault.tamper.inflated-beyond-size-limit");
+                    } else {
+                        c2.insert(k, J::s("x"));
+                    }
                 } else {
                     let k = self.t.pick(&candidates).clone();
                     c2.insert(k, J::s("tampered-value"));
@@ -643,6 +650,15 @@ impl<'a> Sim<'a> {
         self.bump(&format!("verify.{model_class}"));
         if model_class == "undecided" {
             return;
+        }
+        if real_class != "fail" && self.cfg.profile == "C05" {
+            if let EventVerdict::Fail(w) = model {
+                if w.starts_with("event too large") {
+                    // the size clause is C05's: an oversized event is refused by every entry point
+                    self.violate("C05", "rsha/size-limit.accepted-by-verify_event".into(), json!({"oracle":"rsha","room_version":v,"transport":format!("{ledger:?}"),"real":real_class,"expected":"fail","why":w,"event":clip(&rj::canonical(j))}));
+                    return;
+                }
+            }
         }
         if real_class != model_class {
             let detail = match (real, model) {
